@@ -324,8 +324,11 @@ structure SubInfo (S : Sys) where
   obsAt : Obs S.C
   buf : Nat := 1000000
   max : Nat := 1000000
-  /-- subscription obtained from the mirror with this sid (`Mirrored*::subscribe`) -/
+  /-- subscription obtained from the mirror with this sid (`Mirrored*::subscribe`); `obsAt` then is the
+  model's state of that mirror at subscription time -/
   src : Option String := none
+  /-- subscription point of the first subscription in the chain (to the collection itself) -/
+  rootK : Nat := 0
 
 structure CaseSt (S : Sys) where
   id : String
@@ -369,9 +372,17 @@ def feedLine (cd : Codec S) (st : CaseSt S) (line : String) : CaseSt S :=
       match rest.find? (·.startsWith (key ++ "=")) with
       | some t => ((t.drop (key.length + 1)).toString.toNat?).getD dflt
       | none => dflt
-    { st with subs := st.subs ++ [{ sid, k := st.groups.size, incr := mode == "incr", mirror := kind == "mirror",
-                                    obsAt := st.obs, buf := getOpt "buf" 1000000, max := getOpt "max" 1000000,
-                                    src := (rest.find? (·.startsWith "src=")).map (fun t => (t.drop 4).toString) }] }
+    let src := (rest.find? (·.startsWith "src=")).map (fun t => (t.drop 4).toString)
+    let k := st.groups.size
+    let (obsAt, rootK) : Obs S.C × Nat :=
+      match src.bind (fun id => st.subs.find? (·.sid == id)) with
+      | none => (st.obs, k)
+      | some s0 =>
+        let sub0 : Sub S := ⟨if s0.incr then .incremental else .snapshot, s0.obsAt.v, cd.incrEvents s0.obsAt.v, s0.obsAt.done⟩
+        let t0 := S.taskRun .pinned (sub0.mirrorInit s0.max) (sub0.stream (st.groups.toList.drop s0.k).flatten)
+        (⟨t0.m.v, t0.m.done⟩, s0.rootK)
+    { st with subs := st.subs ++ [{ sid, k, incr := mode == "incr", mirror := kind == "mirror",
+                                    obsAt, buf := getOpt "buf" 1000000, max := getOpt "max" 1000000, src, rootK }] }
   | "op" :: rest =>
     let call : Option (Call S.Op) :=
       if rest == ["done"] then some .done else (cd.parseOp rest).map .op
@@ -417,11 +428,8 @@ def splitBy {α : Type} : List Nat → List α → List (List α)
 
 /-- the hypotheses of the mirror theorem that this subscription violates -/
 def causes (_cd : Codec S) (st : CaseSt S) (s : SubInfo S) (mirrorTask : Bool) : List String :=
-  let src := s.src.bind (fun id => st.subs.find? (·.sid == id))
-  let k0 := match src with | some s0 => s0.k | none => s.k
-  let srcF13 := match src with | some s0 => s0.incr && s0.obsAt.done && S.inheritDone | none => false
-  (if st.badCalls.any (fun i => k0 ≤ i) then ["retain-mutation"] else []) ++
-  (if (mirrorTask && s.incr && s.obsAt.done && S.inheritDone) || srcF13 then ["incremental-after-done"] else [])
+  (if st.badCalls.any (fun i => s.rootK ≤ i) then ["retain-mutation"] else []) ++
+  (if mirrorTask && s.incr && s.obsAt.done && S.inheritDone then ["incremental-after-done"] else [])
 
 def causeText (cs : List String) (modelAgrees : Bool) : String :=
   if !modelAgrees then "unexplained"
@@ -429,13 +437,6 @@ def causeText (cs : List String) (modelAgrees : Bool) : String :=
 
 def checkSub (cd : Codec S) (st : CaseSt S) (s : SubInfo S) : CaseSt S :=
   let later : List (Event S.Ev) := (st.groups.toList.drop s.k).flatten
-  -- what is subscribed to: the collection, or a mirror (then: the model's state of that mirror at this point)
-  let s : SubInfo S := match s.src.bind (fun id => st.subs.find? (·.sid == id)) with
-    | none => s
-    | some s0 =>
-      let sub0 : Sub S := ⟨if s0.incr then .incremental else .snapshot, s0.obsAt.v, cd.incrEvents s0.obsAt.v, s0.obsAt.done⟩
-      let t0 := S.taskRun .pinned (sub0.mirrorInit s0.max) (sub0.stream ((st.groups.toList.drop s0.k).take (s.k - s0.k)).flatten)
-      { s with obsAt := ⟨t0.m.v, t0.m.done⟩ }
   let sub : Sub S := ⟨if s.incr then .incremental else .snapshot, s.obsAt.v, cd.incrEvents s.obsAt.v, s.obsAt.done⟩
   let stream := sub.stream later
   let (fc, fd) := match st.realFinal with
